@@ -20,6 +20,8 @@ struct Z {   // RAII mpz
 	~Z() { mpz_clear(v); }
 	operator mpz_ptr() { return v; }
 	operator mpz_srcptr() const { return v; }
+	__mpz_struct *operator->() { return v; }               // GMP's macros (mpz_sgn, mpz_odd_p, ...) use ->
+	const __mpz_struct *operator->() const { return v; }
 };
 
 // ------------------------------------------------------------ run options
@@ -32,6 +34,8 @@ extern Opt opt;
 inline bool fam_on(const char *f) { if (opt.fam.empty()) return true; return ("," + opt.fam + ",").find(std::string(",") + f + ",") != std::string::npos; }
 // sweep cases are thinned in sample mode; `always` families ignore it
 inline bool thin_out(long k) { if (opt.frac <= 1) return false; Rng r(ctx.seed, (uint64_t)k, 0x5a5a); return (r.next() % (uint64_t)opt.frac) != 0; }
+// cheap families (conversion, Bigint, small prime draws) keep a third of their cases in sample mode
+inline bool thin_light(long k) { if (opt.frac <= 1) return false; Rng r(ctx.seed, (uint64_t)k, 0xa5a5); return (r.next() % 3) != 0; }
 
 // ------------------------------------------------------------ violations (bounded per key)
 extern std::map<std::string, int> g_vcount;
